@@ -97,6 +97,23 @@ def WriteInteger(output: BinaryIO, i: int):
     output.write(PackInteger(i))
 
 
+def PackSignedInteger(v):
+    # Signed LEB128: emit 7-bit groups until the remaining bits are pure sign
+    # extension of bit 6 of the last group
+    output = []
+    while True:
+        b = v & 0x7F
+        v >>= 7
+        if (v == 0 and not (b & 0x40)) or (v == -1 and (b & 0x40)):
+            output.append(b)
+            return bytes(output)
+        output.append(b | 0b1000_0000)
+
+
+def WriteSignedInteger(output: BinaryIO, i: int):
+    output.write(PackSignedInteger(i))
+
+
 def PackFloat(v):
     return struct.pack("<f", v)
 
@@ -370,7 +387,11 @@ class Instruction:
         # TODO Handle non-integer arguments
         if self.__args:
             for arg in self.__args:
-                WriteInteger(output, arg)
+                if self.__opcode == opcodes["i32.const"]:
+                    # The immediate of i32.const is a signed LEB128
+                    WriteSignedInteger(output, arg)
+                else:
+                    WriteInteger(output, arg)
 
 
 class Code:
